@@ -234,6 +234,10 @@ def replay(obj):
                         rules=[(n, kv) for n, kv in r['rules']])
     evs = [tuple(e) for e in r['events']]
     syms = [_tup(e) for e in r['symbolic_raw']]
+    for path, text in (r.get('reload_files') or {}).items():
+        os.makedirs(os.path.dirname(path), exist_ok=True)
+        with open(path, 'w') as f:
+            f.write(text)
     srv = e1.Server(conf, builddir=b)
     w = proto.World([tuple(x) for x in r['services']], [(n, kv) for n, kv in r['rules']], srv.banner, r['timeout'])
     M = proto.initial_M(r['ids'])
